@@ -30,15 +30,21 @@ def norm_slice(sl, n):
     """Python slice normalisation -> (start, step, length); step must be a concrete non-zero int"""
     st = 1 if sl.step is None else sl.step
     if isinstance(st, (SInt,)):
+        c = ctx()
+        if c.interp.truth(st == 0):
+            raise RaiseSig(ValueError("slice step cannot be zero"))
+        if c.interp.truth(st < 0):
+            raise Unsupported("slice with symbolic negative step")
         if sl.start is None and sl.stop is None:
-            c = ctx()
-            if c.interp.truth(st == 0):
-                raise RaiseSig(ValueError("slice step cannot be zero"))
-            if c.interp.truth(st < 0):
-                raise Unsupported("slice with symbolic negative step")
             q, r = c.divmod(n, st)
             return 0, st, ite(r == 0, q, q + 1)
-        raise Unsupported("slice with symbolic step and explicit bounds")
+        lo = 0 if sl.start is None else sl.start
+        hi = n if sl.stop is None else sl.stop
+        lo = smin(smax(ite(lo < 0, lo + n, lo) if isinstance(lo, SInt) else (lo + n if lo < 0 else lo), 0), n)
+        hi = smin(smax(ite(hi < 0, hi + n, hi) if isinstance(hi, SInt) else (hi + n if hi < 0 else hi), 0), n)
+        d = smax(hi - lo, 0)
+        q, r = c.divmod(d, st)
+        return lo, st, ite(r == 0, q, q + 1)
     if st == 0:
         raise RaiseSig(ValueError("slice step cannot be zero"))
     lo, hi = sl.start, sl.stop
